@@ -247,12 +247,13 @@ class UnionParser(AbstractParser[Tuple[Type[T], ...], Optional[T]]):
         for t in self.base_type:
             t = eval_forward_ref_if_needed(t, cls)
             if t is not NoneType:
-                parser = get_parser(t, cls, extras)
+                tag = None
 
-                if isinstance(parser, AbstractParser):
-                    parsers_list.append(parser)
-
-                elif is_dataclass(t):
+                if is_dataclass(t):
+                    # Resolve (and auto-assign) the tag *before* the load
+                    # function for the class is generated, so that it knows
+                    # about the tag key and does not report it as an unknown
+                    # key, or capture it in a `CatchAll` field.
                     meta = get_meta(t)
                     tag = meta.tag
                     if not tag and (auto_assign_tags or meta.auto_assign_tags):
@@ -267,6 +268,13 @@ class UnionParser(AbstractParser[Tuple[Type[T], ...], Optional[T]]):
                             _META[t] = meta
                         else:
                             meta.tag = cls_name
+
+                parser = get_parser(t, cls, extras)
+
+                if isinstance(parser, AbstractParser):
+                    parsers_list.append(parser)
+
+                elif is_dataclass(t):
                     if tag:
                         # TODO see if we can use a mapping of dataclass type to
                         #   load func (maybe one passed in to __post_init__),
